@@ -65,7 +65,9 @@ def replay_runs(engine, prop, runs, tier):
     """Execute recorded runs in order in this process; the verdict is that of
     the last one."""
     res = None
+    from . import seams
     for r in runs:
+        seams.install_sim_id(r.get("seed", 0) or 0)
         res = engine.replay_run(prop, r, tier)
     return res
 
